@@ -368,6 +368,8 @@ def method(ip, base, attr, args, kw):
             return base.ravel()[0]
         if attr in ("max", "min"):
             return call(ip, attr, [base], kw)
+        if attr in ("any", "all"):
+            return call(ip, attr, [base], kw)
         if attr == "squeeze":
             return base.squeeze()
         if attr == "view":
